@@ -6,18 +6,21 @@ package podgroup
 import (
 	"reflect"
 
+	"k8s.io/apimachinery/pkg/api/equality"
+
 	enginev2alpha2 "github.com/NVIDIA/KAI-scheduler/pkg/apis/scheduling/v2alpha2"
 )
 
 func podGroupsEqual(oldPodGroup, newPodGroup *enginev2alpha2.PodGroup) bool {
-	return reflect.DeepEqual(oldPodGroup.Spec, newPodGroup.Spec) &&
+	// Semantic equality: a nil slice read back from the API server equals the empty slice we build (omitempty).
+	return equality.Semantic.DeepEqual(oldPodGroup.Spec, newPodGroup.Spec) &&
 		reflect.DeepEqual(oldPodGroup.OwnerReferences, newPodGroup.OwnerReferences) &&
 		mapsEqualBySourceKeys(newPodGroup.Labels, oldPodGroup.Labels) &&
 		mapsEqualBySourceKeys(newPodGroup.Annotations, oldPodGroup.Annotations)
 }
 
 func mapsEqualBySourceKeys(source, target map[string]string) bool {
-	if source != nil && target == nil {
+	if len(source) > 0 && target == nil {
 		return false
 	}
 
